@@ -285,6 +285,34 @@ def explore(job):
             else:
                 res['stale_compared'] += 1
                 compare(fingerprint(bdir), 'history: the build directory already contained the empty directories %s' % ' '.join(stale[:6]), 'history-stale-dirs', stale=stale)
+        # history: the build directory was configured from an earlier version of the data files (same names, same sizes,
+        # same time stamps - a tree unpacked from an archive made with one fixed time stamp - other contents), then from the
+        # present one: what configuration copies or renders from them must be what a fresh directory gets
+        data = sorted(k for k in (files or {}) if k.endswith(('.in', '.txt', '.cfg')) and isinstance(files[k], str) and any(c.isalpha() for c in files[k])) if (matrix or full) else []
+        if data:
+            def other_version(text):
+                i = max(j for j, c in enumerate(text) if c.isalpha())
+                return text[:i] + text[i].swapcase() + text[i + 1:]
+            stamp = 1600000000
+            for k in data:
+                pth = os.path.join(src, k)
+                with open(pth, 'w', encoding='utf-8', newline='') as f:
+                    f.write(other_version(files[k]))
+                os.utime(pth, (stamp, stamp))
+            r = setup(seeds[0], 'asis', 'native')
+            for k in data:
+                pth = os.path.join(src, k)
+                with open(pth, 'w', encoding='utf-8', newline='') as f:
+                    f.write(files[k])
+                os.utime(pth, (stamp, stamp))
+            if r.rc == 0:
+                r = setup(seeds[0], 'asis', 'native', extra=['--reconfigure'], fresh=False)
+            if r.rc == 0:
+                res['oldversion_compared'] = res.get('oldversion_compared', 0) + 1
+                # (the baseline was configured from files with other time stamps: only contents are compared)
+                compare(fingerprint(bdir), 'history: configured from an earlier version of %s (same sizes and time stamps), then reconfigured from the present one' % ' '.join(data[:5]), 'history-earlier-data-version')
+            else:
+                res['oldversion_skipped'] = res.get('oldversion_skipped', 0) + 1
     finally:
         for s in servers.values():
             s.close()
@@ -482,6 +510,7 @@ def main():
     mtot = {'setups': 0, 'pairs_compared': 0, 'pipe_copies_seen': 0}
     tot = {'projects': 0, 'skipped': 0, 'setups': 0, 'files': 0, 'comparisons': 0}
     ptot = {'projects': 0, 'setups': 0, 'comparisons': 0, 'configure_outputs_in_builddir': 0}
+    otot = {'compared': 0, 'skipped': 0}
     stot = {'projects_with_source_subdirs': 0, 'stale_dirs_precreated': 0, 'compared': 0, 'skipped_unspecified': 0}
     pseen = set()
     classes = set()
@@ -520,7 +549,11 @@ def main():
             stot['stale_dirs_precreated'] += res['stale_dirs']
             stot['compared'] += res['stale_compared']
             stot['skipped_unspecified'] += res['stale_skipped']
+        otot['compared'] += res.get('oldversion_compared', 0)
+        otot['skipped'] += res.get('oldversion_skipped', 0)
         ck.sample({'project': res['name'], 'generated_files_compared': res['files'], 'setups': res['setups']}, cap=6)
+    ck.part('history-earlier-data-version', **otot)
+    ck.require(not ck.want('matrix') or otot['compared'] >= 2, 'earlier-data-version history compared for too few projects')
     ck.part('matrix', seeds=len(seeds), distinct_set_orders_realised=seed_orders(seeds), env_orders=len(ENV_ORDERS), dir_orders=len(DIR_ORDERS), **tot)
     ck.part('builddir-placement', placements=len(pseen), invocations=len(INVOCATIONS), histories=4, builddir_io_cells=len(c6.cells()),
             outside_dev=not disk_base().startswith('/dev/'), **ptot)
